@@ -350,3 +350,14 @@ class LineTracer:
             missing = sorted(lines - self.seen.get(q, set()))
             out[q] = missing
         return out
+
+
+def coqchk_summary(pid, timeout=1500):
+    """Independent re-check of P<id>.vo and everything it depends on (thorough tier); returns the context summary."""
+    cmd = ["timeout", str(timeout), "coqchk", "-silent", "-o", "-Q", THEORIES, "SV", f"SV.P{pid}"]
+    try:
+        rc, out = sh(cmd, timeout=timeout + 30)
+    except subprocess.TimeoutExpired:
+        return {"ok": False, "summary": "coqchk timed out"}
+    i = out.find("CONTEXT SUMMARY")
+    return {"ok": rc == 0, "summary": (out[i:] if i >= 0 else out[-1500:]).strip()[:3000]}
